@@ -333,3 +333,61 @@ func H_C20_stats_e2e() {
 		vfReach("checked")
 	})
 }
+
+// H_C20_stats_failures: client-side stats pairing for RPCs that fail before or at the
+// transport: outcome 0 = stream whose opening write fails, 1 = unary call whose request
+// write fails, 2 = stream opened, then the connection's read side fails.
+func H_C20_stats_failures() {
+	H := vfParam("H", 1)
+	outcome := vfParam("outcome", 0)
+	var csh []*zzRecStats
+	var copts []DialOption
+	for i := 0; i < H; i++ {
+		c := newZZRecStats()
+		csh = append(csh, c)
+		copts = append(copts, WithStatsHandler(c))
+	}
+	conn := newZZConn()
+	if outcome != 2 {
+		conn.failWrite = errors.New("transport write failed")
+	}
+	cc := NewClientConn(conn, "cli", "srv", copts...)
+	done := false
+	var callErr error
+	go func() {
+		switch outcome {
+		case 0:
+			_, callErr = cc.NewStream(context.Background(), &grpc.StreamDesc{ClientStreams: true, ServerStreams: true}, "/"+zzSvcName+"/BidiStream")
+		case 1:
+			out := new(testproto.Msg)
+			callErr = cc.Invoke(context.Background(), "/"+zzSvcName+"/Unary", &testproto.Msg{Value: 3}, out)
+		default:
+			cs, err := cc.NewStream(context.Background(), &grpc.StreamDesc{ClientStreams: true, ServerStreams: true}, "/"+zzSvcName+"/BidiStream")
+			if err != nil {
+				callErr = err
+			} else {
+				out := new(testproto.Msg)
+				callErr = cs.RecvMsg(out)
+			}
+		}
+		done = true
+	}()
+	if outcome == 2 {
+		go func() { conn.rerr <- errors.New("connection reset") }()
+	}
+	vfAtQuiescence(func() {
+		vfAssert(done, "call-returns")
+		if !done {
+			return
+		}
+		vfAssert(callErr != nil, "failure-reported-to-the-caller")
+		for i := 0; i < H; i++ {
+			if csh[i].ntags == 0 {
+				// the RPC never came to be (connection already failed before an id was allocated)
+				continue
+			}
+			csh[i].wellPaired(1, []bool{true})
+		}
+		vfReach("checked")
+	})
+}
